@@ -114,10 +114,47 @@ package server
 //@   ensures mapOnSuccess: err == nil ==> ret != nil
 //@ func parseClientHello
 //@   ensures helloOnSuccess: err == nil ==> ret != nil && len(ret.random) == 32
+//@   ensures privateCopy: err == nil ==> fresh(ret) && fresh(ret.sessionId)
 // (append(ch.sessionId, keyShare...) writes into the spare capacity of the session id slice, i.e.
 // into parseClientHello's private copy of the packet: that is the only memory touched)
 //@ import "crypto"
 //@ ghost func pvOK(k crypto.PrivateKey) bool { return typeIs[*[32]byte](k) && k.(*[32]byte) != nil }
+// processFirstPacket of both transports (C09, C06): nothing is written to any connection and no
+// buffered byte is changed while the first packet is examined (the frame of the Transport interface
+// contract, proved here for the implementations); a packet that does not parse is an error; the
+// responder handed back is bound to this client's session id and to the secret shared with this client.
+//@ func (TLS).makeResponder
+//@   ensures ret0 != nil
+//@ func (WebSocket).makeResponder
+//@   ensures ret0 != nil
+//@ func (TLS).processFirstPacket
+//@   requires pvOK(privateKey)
+//@   atcall makeResponder requires boundToThisClient: arg1.([32]byte) == fragments.sharedSecret && sameSlice(arg0.([]byte), ch.sessionId)
+//@   ensures malformedIsError: !succeeded("parseClientHello") ==> err != nil
+//@   ensures okMeansBothParsed: err == nil ==> succeeded("parseClientHello") && succeeded("(TLS).unmarshalClientHello") && respond != nil
+//@   modifies *
+//@   preserves $KEEP
+// standard library used to parse the HTTP upgrade request: reads its input, writes nothing the caller can see
+//@ func bytes.NewBuffer
+//@   flag trusted
+//@   ensures ret0 != nil
+//@ func bufio.NewReader
+//@   flag trusted
+//@   ensures ret0 != nil
+//@ func net/http.ReadRequest
+//@   flag trusted
+//@   ensures ret1 == nil ==> ret0 != nil
+//@ func (net/http.Header).Get
+//@   flag trusted
+//@ func (*encoding/base64.Encoding).DecodeString
+//@   flag trusted
+//@   ensures fresh(ret0)
+//@ func (WebSocket).processFirstPacket
+//@   requires pvOK(privateKey)
+//@   atcall makeResponder requires boundToThisClient: arg1.([32]byte) == fragments.sharedSecret && sameSlice(arg0.([]byte), reqPacket)
+//@   ensures okMeansParsed: err == nil ==> succeeded("(WebSocket).unmarshalHidden") && respond != nil
+//@   modifies *
+//@   preserves $KEEP
 //@ func (TLS).unmarshalClientHello
 //@   requires ch != nil && pvOK(staticPv)
 //@   modifies elems(ch.sessionId[0:cap(ch.sessionId)])
@@ -408,6 +445,11 @@ package server
 //@ func (TLS).makeResponder$1
 //@   requires originalConn != nil && len(clientHelloSessionId) == 32
 //@   atcall composeReply requires certNotEmpty: len(cert) >= 27 && len(cert) <= 68
+//@   # C06: what is sealed is THIS connection's session key, under the secret shared with THIS client, and
+//@   # the reply carries that ciphertext, the nonce it was sealed with and the client's own session id
+//@   atcall AESGCMEncrypt requires sealsSessionKey: len(arg0.([]byte)) == 12 && len(arg1.([]byte)) == 32 && (forall k int :: 0 <= k && k < 32 ==> arg1.([]byte)[k] == sharedSecret[k]) && len(arg2.([]byte)) == 32 && (forall k int :: 0 <= k && k < 32 ==> arg2.([]byte)[k] == sessionKey[k])
+//@   atcall composeReply requires carriesThisHandshake: sameSlice(arg0.([]byte), clientHelloSessionId) && arg1.([12]byte) == nonce && (forall k int :: 0 <= k && k < 48 && k < len(encryptedSessionKey) ==> arg2.([48]byte)[k] == encryptedSessionKey[k])
+//@   atcall Write requires onlyTheReply: sameSlice(arg0.([]byte), reply)
 //@   flag noframe
 
 // ---------------------------------------------------------------------------------------------
